@@ -75,6 +75,10 @@ def escalate(ck, quick, thorough, factor: int = 4):
     """`ck.pick` with escalation: quick counts times `factor` (capped by the thorough count) if covered code changed."""
     if ck.thorough:
         return thorough
+    import os
+
+    if os.environ.get("VP_NO_ESCALATE"):  # mutation-table runs: the default counts must catch the mutant
+        return quick
     if getattr(ck, "_vp_changed", None) is None:
         ck._vp_changed = changed()
         ck.cov["covered_sources_changed"] = ck._vp_changed
